@@ -209,7 +209,7 @@ func init() {
 	})
 	register(&Check{
 		ID: "C05",
-		Expl: "Decides one clause of the statement — 'the caller's buffer is left unmodified' — for every function on the decode side of pkg/packet/bgp: no store, copy, append-in-place or in-place mutator targets a []byte parameter or memory derived from it (interprocedural taint with writes-param / returns-alias summaries), and no field that retains a sub-slice of the input is written through anywhere in the module. Also decides one cause of crashes exactly: (E5.narrow-guard) no length guard is computed in uint8/uint16 arithmetic that can wrap for some peer-chosen length (upper bounds from constants, widening conversions and dominating comparisons). Also: (E5.loop-progress) every decode loop whose continuation test depends on one loop variable changes that variable on every back edge; (E6.exact-body) ParseBGPMessage hands the body decoder exactly the declared message. (E3.decoded-non-nil) a successfully decoded object has every pointer/interface field assigned that its Serialize dereferences unguarded; (E5.bounds-ratchet) against a committed baseline, no decode function with unchanged accesses has fewer constant-offset accesses provably in bounds than on the reviewed tree.",
+		Expl: "Decides one clause of the statement — 'the caller's buffer is left unmodified' — for every function on the decode side of pkg/packet/bgp: no store, copy, append-in-place or in-place mutator targets a []byte parameter or memory derived from it (interprocedural taint with writes-param / returns-alias summaries), and no field that retains a sub-slice of the input is written through anywhere in the module. Also decides one cause of crashes exactly: (E5.narrow-guard) no length guard is computed in uint8/uint16 arithmetic that can wrap for some peer-chosen length (upper bounds from constants, widening conversions and dominating comparisons). Also: (E5.loop-progress) every decode loop whose continuation test depends on one loop variable changes that variable on every back edge; (E6.exact-body) ParseBGPMessage hands the body decoder exactly the declared message. (E3.decoded-non-nil) a successfully decoded object has every pointer/interface field assigned that its Serialize dereferences unguarded; (E5.bounds-ratchet) against a committed baseline, no decode function with unchanged accesses has fewer constant-offset accesses provably in bounds than on the reviewed tree. (E5.errors-checked) every error returned to decode-side code by a module function is used.",
 		Not: "Crash-freedom, termination, bounded allocation and in-bounds access are NOT decided: a length-guard prover was prototyped and left 181 of 453 slice accesses unproven (value relations between cached lengths and slices), so it is not armed (DESIGN.md §6.1).",
 		Run: func(c *Ctx) {
 			c.ruleInputImmutable("E2c.input", []string{"pkg/packet/bgp"}, 120)
@@ -218,11 +218,12 @@ func init() {
 			c.ruleParseExactBody("E6.exact-body")
 			c.ruleDecodedNonNil("E3.decoded-non-nil", []string{"pkg/packet/bgp"}, 6)
 			c.ruleConstBounds("E5.bounds-ratchet", []string{"pkg/packet/bgp"}, "baselines/bounds.json", 100)
+			c.ruleErrorsChecked("E5.errors-checked", []string{"pkg/packet/bgp"}, errorsDiscardedReviewed, 400)
 		},
 	})
 	register(&Check{
 		ID: "C19",
-		Expl: "Decides for pkg/packet/{mrt,bmp,rtr,bfd} and pkg/zebra: (E2c) decoders never write their input buffer nor anything that retains a part of it; (E4.decode-produces) every message/TLV type with a serialiser is allocated on the decode side; (E6.split) stream splitters compare len(input) — not cap — with the very bound they slice by; (E3.guard-order) the writer and the reader of one structure test the same flag constants in the same order around their wire-touching statements and under the same protocol versions (finite version domain); (E4.mrt-rib-families) the MRT reader, Rib.Serialize and the dump writer agree on which families have AFI/SAFI-specific RIB subtypes; (E3.decoded-fields) every field a decodable type's Serialize reads is filled somewhere on the decode side. Also: (E5.loop-progress) decode loops change their loop variable on every back edge. (E5.bounds-ratchet) the same length-guard ratchet for the MRT, BMP, RTR, BFD and ZAPI decoders.",
+		Expl: "Decides for pkg/packet/{mrt,bmp,rtr,bfd} and pkg/zebra: (E2c) decoders never write their input buffer nor anything that retains a part of it; (E4.decode-produces) every message/TLV type with a serialiser is allocated on the decode side; (E6.split) stream splitters compare len(input) — not cap — with the very bound they slice by; (E3.guard-order) the writer and the reader of one structure test the same flag constants in the same order around their wire-touching statements and under the same protocol versions (finite version domain); (E4.mrt-rib-families) the MRT reader, Rib.Serialize and the dump writer agree on which families have AFI/SAFI-specific RIB subtypes; (E3.decoded-fields) every field a decodable type's Serialize reads is filled somewhere on the decode side. Also: (E5.loop-progress) decode loops change their loop variable on every back edge. (E5.bounds-ratchet) the same length-guard ratchet for the MRT, BMP, RTR, BFD and ZAPI decoders. (E5.errors-checked) every error returned to decode-side code by a module function is used.",
 		Not: "Crash-freedom and termination of the decoders, and round-trip equality, are value-level and not decided. ZAPI field symmetry is excluded (request and response bodies are directional).",
 		Run: func(c *Ctx) {
 			c.ruleInputImmutable("E2c.input", []string{"pkg/packet/mrt", "pkg/packet/bmp", "pkg/packet/rtr", "pkg/packet/bfd", "pkg/zebra"}, 60)
@@ -233,6 +234,7 @@ func init() {
 			c.ruleDecodedFields("E3.decoded-fields", []string{"pkg/packet/mrt", "pkg/packet/bmp", "pkg/packet/rtr"}, 20)
 			c.ruleLoopProgress("E5.loop-progress", []string{"pkg/packet/mrt", "pkg/packet/bmp", "pkg/packet/rtr", "pkg/packet/bfd", "pkg/zebra"}, 10)
 			c.ruleConstBounds("E5.bounds-ratchet", []string{"pkg/packet/mrt", "pkg/packet/bmp", "pkg/packet/rtr", "pkg/packet/bfd", "pkg/zebra"}, "baselines/bounds.json", 20)
+			c.ruleErrorsChecked("E5.errors-checked", []string{"pkg/packet/mrt", "pkg/packet/bmp", "pkg/packet/rtr", "pkg/zebra"}, errorsDiscardedReviewed, 40)
 		},
 	})
 }
